@@ -15,7 +15,7 @@ import os, sys, json, glob
 import vlib, wire_lib as W
 
 THEOREMS = [
-    'C14_codec_command', 'C14_codec_response', 'C14_decode_encode_command',
+    'C14_codec', 'C14_codec_command', 'C14_codec_response', 'C14_decode_encode_command',
     'C14_decode_encode_response', 'C14_size_command', 'C14_size_response',
     'C14_encode_injective_command', 'C14_encode_injective_response', 'C14_encode_total_command',
     'C14_encode_total_response', 'C14_send_size_panics_iff_command', 'C14_send_size_panics_iff_response',
@@ -25,7 +25,7 @@ THEOREMS = [
     'C14_admission', 'C14_admission_loop', 'C14_oversize',
     'C14_progress', 'C14_progress_recv_decreases', 'C14_progress_wait_keeps',
     'C14_progress_admitted_at_zero', 'C14_sender_never_stuck', 'C14_bounded',
-    'C14_run_reach']
+    'C14_run_reach', 'C14_step_rules']
 
 RULE = ('bincode: every Command/Response variant with random field values from boundary sets (u32/u64 extremes, '
         'UTF-8 of every width, times 0 .. i64::MAX and before the epoch), payload lengths 0,1,..,65536 and 4 MiB-1, 4 MiB, '
@@ -38,7 +38,7 @@ RULE = ('bincode: every Command/Response variant with random field values from b
 
 
 # ------------------------------------------------------------------------------------------------
-def bincode_requests(run, tier):
+def bincode_requests(run, tier, pre_epoch=True):
     rng = run.rng
     reqs = []     # (line, meta)
     per = 6 if tier == 'quick' else 60
@@ -64,7 +64,7 @@ def bincode_requests(run, tier):
             line, pl = W.gen_response(rng, 'FileContent', size=sz)
             reqs.append(('E ' + line, {'kind': 'resp', 'variant': 'FileContent', 'payload': pl, 'pre': False, 'big': True}))
     # times before the epoch (defect F8 of C18: serialization fails, the channel send panics)
-    for _ in range(4 if tier == 'quick' else 20):
+    for _ in range((4 if tier == 'quick' else 20) if pre_epoch else 0):
         line, pl = W.gen_command(rng, 'CreateOrUpdateFile', pre=True)
         reqs.append(('E ' + line, {'kind': 'cmd', 'variant': 'CreateOrUpdateFile', 'payload': pl, 'pre': True}))
         line, pl = W.gen_response(rng, 'Entry', pre=True)
@@ -109,8 +109,8 @@ def bincode_oracle(meta, impl):
     return None
 
 
-def run_bincode(run, binary, jbin, tier):
-    reqs = bincode_requests(run, tier)
+def run_bincode(run, binary, jbin, tier, pre_epoch=True):
+    reqs = bincode_requests(run, tier, pre_epoch)
     lines = [r[0] for r in reqs]
     impl = vlib.harness(binary, 'bincode', lines, timeout=900)
     model = W.judge(jbin, lines)
@@ -474,6 +474,14 @@ def check(run):
     extra = run_corpus(run, binary, jbin)
     run_bincode(run, binary, jbin, run.tier)
     run_channel(run, binary, jbin, run.tier, extra)
+    if run.tier == 'thorough':
+        # the release build as well: usize arithmetic wraps instead of panicking there, and thread timing differs
+        rbin = vlib.build_impl(release=True)
+        before = run.evaluations
+        # (the release profile has panic = "abort": the pre-epoch panic cannot be caught in-process there)
+        run_bincode(run, rbin, jbin, 'quick', pre_epoch=False)
+        run_channel(run, rbin, jbin, 'quick', extra)
+        run.count('cases-on-the-release-build', run.evaluations - before)
     return run.finish(search=None)     # every case already ran the property oracle on the implementation
 
 
